@@ -5,11 +5,9 @@ package main
 //
 //   afterHandlersDetach   per after-listener (AsyncEventBroker listeners: the registered method takes an
 //                         event.MessageMetadata BY VALUE): does it replace From by a pointer to a COPY and To by a fresh
-//                         slice of pointers to copies BEFORE the value is wrapped for Lua?  Recognised inline in the
-//                         listener and in a helper called with &msg; `shared` = neither field is touched before the call,
-//                         anything else `unknown`.  Structural: names of locals / helper do not matter, the slice may be
-//                         made by make / append(x[:0:0], …) / append([]T(nil), …) / slices.Clone, the element written by
-//                         index or appended, nil guards are allowed.
+//                         slice of pointers to copies BEFORE the value is wrapped for Lua?  Computed by lua_detach.go: the
+//                         listener is executed on an abstract heap up to the Lua call, helpers followed in place; `shared`
+//                         = both are still the event's, anything else `unknown:<why>`.
 //   fieldTables           the __index / __newindex functions of the message_metadata, address and inbucket.after /
 //                         inbucket.before userdata, read off the symbolic paths of lua.go's evaluator: per Lua key what is
 //                         pushed / which field of the Go object is assigned from which Check…(3), the default branch
@@ -21,418 +19,13 @@ package main
 import (
 	"fmt"
 	"go/ast"
-	"go/token"
 	"sort"
 	"strings"
 )
 
 func init() { extractors = append(extractors, extractLuaAfter) }
 
-// ---------------------------------------------------------------------------------------------------------------------
-// detachAddresses
-
-type luaDetachScan struct {
-	pk        *luaPkg
-	f         *ast.File
-	target    []string          // spellings of the metadata value: "msg", "(*msg)" …
-	copyOf    map[string]string // local -> source expression it is a dereferenced copy of
-	fresh     map[string]bool   // locals that are freshly made slices
-	fromDet   bool
-	toAssign  string // local assigned to T.To
-	toLoop    map[string]bool
-	touched   bool              // some other assignment to T.From / T.To or their elements
-	oddGuard  bool              // evidence sits under a condition that is not a nil test
-	rangeVars map[string]string // range value variable -> ranged expression
-}
-
-func (sc *luaDetachScan) isField(e ast.Expr, field string) bool {
-	s := strings.ReplaceAll(src(e), " ", "")
-	for _, t := range sc.target {
-		if s == t+"."+field {
-			return true
-		}
-	}
-	return false
-}
-
-func (sc *luaDetachScan) mentionsField(e ast.Expr, field string) bool {
-	found := false
-	ast.Inspect(e, func(x ast.Node) bool {
-		if se, ok := x.(*ast.SelectorExpr); ok && sc.isField(se, field) {
-			found = true
-		}
-		return true
-	})
-	return found
-}
-
-func luaIsNilTest(e ast.Expr) bool {
-	switch v := e.(type) {
-	case *ast.BinaryExpr:
-		if v.Op == token.NEQ && (luaIsNilIdent(v.X) || luaIsNilIdent(v.Y)) {
-			return true
-		}
-		if v.Op == token.LAND {
-			return luaIsNilTest(v.X) && luaIsNilTest(v.Y)
-		}
-		if v.Op == token.GTR || v.Op == token.NEQ {
-			// len(x) > 0 / len(x) != 0
-			if ce, ok := v.X.(*ast.CallExpr); ok {
-				if id, ok := ce.Fun.(*ast.Ident); ok && id.Name == "len" {
-					return true
-				}
-			}
-		}
-	case *ast.ParenExpr:
-		return luaIsNilTest(v.X)
-	}
-	return false
-}
-
-// freshSlice: an expression that makes a new backing array
-func (sc *luaDetachScan) freshSlice(e ast.Expr) bool {
-	ce, ok := e.(*ast.CallExpr)
-	if !ok {
-		return false
-	}
-	switch fu := ce.Fun.(type) {
-	case *ast.Ident:
-		if fu.Name == "make" {
-			return true
-		}
-		if fu.Name == "append" && len(ce.Args) >= 1 {
-			switch a := ce.Args[0].(type) {
-			case *ast.SliceExpr: // x[:0:0]
-				return a.Slice3 && a.Max != nil && src(a.Max) == "0" && (a.High == nil || src(a.High) == "0")
-			case *ast.CallExpr: // []T(nil)
-				return len(a.Args) == 1 && luaIsNilIdent(a.Args[0])
-			case *ast.CompositeLit: // []T{}
-				return len(a.Elts) == 0
-			}
-		}
-	case *ast.SelectorExpr:
-		if id, ok := fu.X.(*ast.Ident); ok && id.Name == "slices" && fu.Sel.Name == "Clone" {
-			return true
-		}
-	}
-	return false
-}
-
-// addrOfCopy: `&c` with c a dereferenced copy; returns the source expression copied
-func (sc *luaDetachScan) addrOfCopy(e ast.Expr) (string, bool) {
-	u, ok := e.(*ast.UnaryExpr)
-	if !ok || u.Op != token.AND {
-		return "", false
-	}
-	if id, ok := u.X.(*ast.Ident); ok {
-		s, ok := sc.copyOf[id.Name]
-		return s, ok
-	}
-	return "", false
-}
-
-func (sc *luaDetachScan) elemSource(s string) bool {
-	// is `s` an element of the To slice (of the target or of the fresh local): a range variable over one of them, or x[i]
-	if r, ok := sc.rangeVars[s]; ok {
-		s = r + "[]"
-	}
-	if i := strings.Index(s, "["); i > 0 {
-		base := s[:i]
-		if sc.fresh[base] {
-			return true
-		}
-		for _, t := range sc.target {
-			if base == t+".To" {
-				return true
-			}
-		}
-	}
-	return false
-}
-
-func (sc *luaDetachScan) stmts(list []ast.Stmt, guarded bool) {
-	for _, st := range list {
-		sc.stmt(st, guarded)
-	}
-}
-
-func (sc *luaDetachScan) stmt(st ast.Stmt, odd bool) {
-	switch s := st.(type) {
-	case *ast.BlockStmt:
-		sc.stmts(s.List, odd)
-	case *ast.IfStmt:
-		if s.Init != nil {
-			sc.stmt(s.Init, odd)
-		}
-		inner := odd || !luaIsNilTest(s.Cond)
-		sc.stmts(s.Body.List, inner)
-		if s.Else != nil {
-			sc.stmt(s.Else, true)
-		}
-	case *ast.RangeStmt:
-		ranged := strings.ReplaceAll(src(s.X), " ", "")
-		if id, ok := s.Value.(*ast.Ident); ok && id.Name != "_" {
-			sc.rangeVars[id.Name] = ranged
-		}
-		sc.stmts(s.Body.List, odd)
-	case *ast.ForStmt:
-		sc.stmts(s.Body.List, odd)
-	case *ast.DeclStmt:
-		if gd, ok := s.Decl.(*ast.GenDecl); ok {
-			for _, sp := range gd.Specs {
-				if vs, ok := sp.(*ast.ValueSpec); ok && len(vs.Names) == 1 && len(vs.Values) == 1 {
-					sc.define(vs.Names[0].Name, vs.Values[0])
-				}
-			}
-		}
-	case *ast.AssignStmt:
-		if len(s.Lhs) != 1 || len(s.Rhs) != 1 {
-			for _, l := range s.Lhs {
-				if sc.mentionsField(l, "From") || sc.mentionsField(l, "To") {
-					sc.touched = true
-				}
-			}
-			return
-		}
-		lhs, rhs := s.Lhs[0], s.Rhs[0]
-		if id, ok := lhs.(*ast.Ident); ok {
-			if s.Tok == token.DEFINE {
-				sc.define(id.Name, rhs)
-				return
-			}
-			// y = append(y, &c)
-			if sc.fresh[id.Name] {
-				if ce, ok := rhs.(*ast.CallExpr); ok {
-					if fu, ok := ce.Fun.(*ast.Ident); ok && fu.Name == "append" && len(ce.Args) == 2 && src(ce.Args[0]) == id.Name {
-						if from, ok := sc.addrOfCopy(ce.Args[1]); ok && sc.elemSource(from) {
-							sc.toLoop[id.Name] = true
-							if odd {
-								sc.oddGuard = true
-							}
-							return
-						}
-					}
-				}
-				if sc.freshSlice(rhs) {
-					return
-				}
-				delete(sc.fresh, id.Name) // reassigned from something else
-			}
-			return
-		}
-		switch {
-		case sc.isField(lhs, "From"):
-			if from, ok := sc.addrOfCopy(rhs); ok && sc.isFieldStr(from, "From") {
-				sc.fromDet = true
-				if odd {
-					sc.oddGuard = true
-				}
-			} else if sc.copyLiteral(rhs, "From") {
-				sc.fromDet = true
-				if odd {
-					sc.oddGuard = true
-				}
-			} else {
-				sc.touched = true
-			}
-		case sc.isField(lhs, "To"):
-			if id, ok := rhs.(*ast.Ident); ok && sc.fresh[id.Name] {
-				sc.toAssign = id.Name
-				if odd {
-					sc.oddGuard = true
-				}
-			} else {
-				sc.touched = true
-			}
-		default:
-			// y[i] = &c
-			if ix, ok := lhs.(*ast.IndexExpr); ok {
-				if id, ok := ix.X.(*ast.Ident); ok && sc.fresh[id.Name] {
-					if from, ok := sc.addrOfCopy(rhs); ok && sc.elemSource(from) {
-						sc.toLoop[id.Name] = true
-						if odd {
-							sc.oddGuard = true
-						}
-						return
-					}
-					delete(sc.fresh, id.Name) // an element written from something that is not a copy
-					return
-				}
-			}
-			if sc.mentionsField(lhs, "From") || sc.mentionsField(lhs, "To") {
-				sc.touched = true
-			}
-		}
-	}
-}
-
-func (sc *luaDetachScan) isFieldStr(s, field string) bool {
-	for _, t := range sc.target {
-		if s == t+"."+field {
-			return true
-		}
-	}
-	return false
-}
-
-// &mail.Address{Name: T.From.Name, Address: T.From.Address}
-func (sc *luaDetachScan) copyLiteral(e ast.Expr, field string) bool {
-	u, ok := e.(*ast.UnaryExpr)
-	if !ok || u.Op != token.AND {
-		return false
-	}
-	cl, ok := u.X.(*ast.CompositeLit)
-	if !ok || len(cl.Elts) != 2 {
-		return false
-	}
-	seen := map[string]bool{}
-	for _, el := range cl.Elts {
-		kv, ok := el.(*ast.KeyValueExpr)
-		if !ok {
-			return false
-		}
-		k, _ := kv.Key.(*ast.Ident)
-		se, ok := kv.Value.(*ast.SelectorExpr)
-		if k == nil || !ok || se.Sel.Name != k.Name || !sc.isField(se.X, field) {
-			return false
-		}
-		seen[k.Name] = true
-	}
-	return seen["Name"] && seen["Address"]
-}
-
-func (sc *luaDetachScan) define(name string, rhs ast.Expr) {
-	if st, ok := rhs.(*ast.StarExpr); ok {
-		sc.copyOf[name] = strings.ReplaceAll(src(st.X), " ", "")
-		return
-	}
-	if sc.freshSlice(rhs) {
-		sc.fresh[name] = true
-	}
-}
-
-func (sc *luaDetachScan) verdict() (from, to, touched bool) {
-	to = sc.toAssign != "" && sc.toLoop[sc.toAssign] && sc.fresh[sc.toAssign]
-	touched = sc.touched || sc.oddGuard || (sc.toAssign != "" && !to)
-	return sc.fromDet, to, touched
-}
-
-func newDetachScan(pk *luaPkg, f *ast.File, target ...string) *luaDetachScan {
-	return &luaDetachScan{pk: pk, f: f, target: target, copyOf: map[string]string{}, fresh: map[string]bool{}, toLoop: map[string]bool{}, rangeVars: map[string]string{}}
-}
-
-// afterDetach: detached | shared | unknown:<why>
-func (pk *luaPkg) afterDetach(fd *ast.FuncDecl) string {
-	if fd == nil || fd.Body == nil || fd.Type.Params == nil {
-		return "unknown:no-body"
-	}
-	f := pk.fileOf[fd]
-	param := ""
-	for _, fl := range fd.Type.Params.List {
-		if luaType(f, fl.Type) == "event.MessageMetadata" && len(fl.Names) == 1 {
-			param = fl.Names[0].Name
-		}
-	}
-	if param == "" {
-		return "unknown:no-metadata-parameter"
-	}
-	// the statement that enters Lua
-	callIdx := -1
-	var call *ast.CallExpr
-	for i, st := range fd.Body.List {
-		ast.Inspect(st, func(x ast.Node) bool {
-			if ce, ok := x.(*ast.CallExpr); ok {
-				if se, ok := ce.Fun.(*ast.SelectorExpr); ok && se.Sel.Name == "CallByParam" && call == nil {
-					call, callIdx = ce, i
-				}
-			}
-			return true
-		})
-		if call != nil {
-			break
-		}
-	}
-	if call == nil {
-		return "unknown:no-CallByParam-in-listener"
-	}
-	wrapped := false
-	for _, a := range call.Args[1:] {
-		ast.Inspect(a, func(x ast.Node) bool {
-			if u, ok := x.(*ast.UnaryExpr); ok && u.Op == token.AND {
-				if id, ok := u.X.(*ast.Ident); ok && id.Name == param {
-					wrapped = true
-				}
-			}
-			return true
-		})
-	}
-	if !wrapped {
-		return "unknown:argument-is-not-the-listener's-copy"
-	}
-	before := fd.Body.List[:callIdx]
-	// inline form
-	sc := newDetachScan(pk, f, param)
-	sc.stmts(before, false)
-	from, to, touched := sc.verdict()
-	// helper form: f(&param) / x.f(&param) as a statement of its own
-	for _, st := range before {
-		es, ok := st.(*ast.ExprStmt)
-		if !ok {
-			continue
-		}
-		ce, ok := es.X.(*ast.CallExpr)
-		if !ok {
-			continue
-		}
-		passes := -1
-		for i, a := range ce.Args {
-			if u, ok := a.(*ast.UnaryExpr); ok && u.Op == token.AND {
-				if id, ok := u.X.(*ast.Ident); ok && id.Name == param {
-					passes = i
-				}
-			}
-		}
-		if passes < 0 {
-			continue
-		}
-		var g *ast.FuncDecl
-		switch fu := ce.Fun.(type) {
-		case *ast.Ident:
-			g = pk.resolveFunc(fu.Name)
-		case *ast.SelectorExpr:
-			g = pk.resolveMeth(fu.Sel.Name)
-		}
-		if g == nil || g.Body == nil || g.Type.Params == nil {
-			touched = true
-			continue
-		}
-		pn, k := "", 0
-		for _, fl := range g.Type.Params.List {
-			for _, nm := range fl.Names {
-				if k == passes && luaType(pk.fileOf[g], fl.Type) == "*event.MessageMetadata" {
-					pn = nm.Name
-				}
-				k++
-			}
-		}
-		if pn == "" {
-			touched = true
-			continue
-		}
-		hs := newDetachScan(pk, pk.fileOf[g], pn, "(*"+pn+")")
-		hs.stmts(g.Body.List, false)
-		hf, ht, htouch := hs.verdict()
-		from, to, touched = from || hf, to || ht, touched || htouch
-	}
-	// anything that hands &param to something else (a goroutine, a stored pointer) is beyond this recogniser
-	switch {
-	case from && to && !touched:
-		return "detached"
-	case !from && !to && !touched:
-		return "shared"
-	}
-	return fmt.Sprintf("unknown:from=%v,to=%v,other-writes=%v", from, to, touched)
-}
+// afterHandlersDetach is computed by the abstract interpreter of lua_detach.go
 
 // ---------------------------------------------------------------------------------------------------------------------
 // field tables
